@@ -230,7 +230,7 @@ def pending_accumulator_rule(rep, fn):
 CARRY_EXEMPT = {
     ("bn_mod_sqrt", "tm"): "m + 1 wraps only for m = 2^capacity - 1, which is divisible by 255 for every digit width: never the odd prime the routine is defined for",
 }
-CARRY_OUT_OF_SCOPE = {"bn_mod_div_mont": "modular division is not among the operations C01 names; the routine has no caller"}
+CARRY_OUT_OF_SCOPE = {}     # (bn_mod_div_mont was listed here until the third audit pass showed the dropped carry through bn + m)
 
 
 def carry_out_rule(rep, fn):
@@ -635,7 +635,8 @@ def no_inverse_exit_rule(rep, u, names=("bn_mod_inv2", "bn_mod_div_mont")):
 
 # ------------------------------------------------------------------------------------------------ R-TOPDIGIT (third pass)
 # functions whose operands may legally have no digits at all (value 0) and that look at "the top digit" num[digits - 1]
-TOP_DIGIT_ZERO_OK = {"bn_sub": "0 - 0 is a legal call (ec_point_proj_add_mix with a zero coordinate reaches it through bn_mod_sub)"}
+TOP_DIGIT_ZERO_OK = {"bn_sub": "0 - 0 is a legal call (ec_point_proj_add_mix with a zero coordinate reaches it through bn_mod_sub)",
+                     "bn_clz": "the leading-zero count of 0 is the capacity (bn_sqrt3/4/5 ask for it); gcc -O0 and clang return capacity + one digit"}
 
 
 def top_digit_rule(rep, fn):
@@ -659,4 +660,66 @@ def top_digit_rule(rep, fn):
         desc = "%s: %s is read only when %s != 0" % (fn.name, key(x)[:40], key(v))
         (rep.proved if ok else rep.violated)("R-TOPDIGIT", fn, "top-digit-needs-a-digit:%s" % key(x)[:40], desc, why if ok else
                                              "with both operands 0 the index is -1 (UBSan: index 18446744073709551615 out of bounds for type 'bn_digit_t[22]'); %s" % TOP_DIGIT_ZERO_OK[fn.name], x.get("ln"))
+    return n
+
+
+# ------------------------------------------------------------------------------------------------ third pass (replays/C01-hunt3)
+
+def halving_odd_modulus_rule(rep, u, fname="bn_mod_div_mont", midx=2):
+    """the Montgomery-style division halves x after `x is odd: x += m`: a division by two modulo m only for odd m.  A parity
+    test of the modulus with a leaving edge dominates the loop (its sibling bn_mod_inv_bin got the test in 3eba9ba)."""
+    fn = u.fn(fname)
+    if fn is None or not fn.has_cfg:
+        raise driver.AnalysisBroken("anchor %s vanished" % fname)
+    rep.functions.add(fname)
+    m = fn.params[midx]["n"]
+    loops = fn.loops()
+    heads = [h for h, body in loops.items() if any(c.get("fn") == "bn_r_shift" for b in body for e in fn.blocks[b].elems for c, _ in walk(e) if c.get("k") == "call")]
+    if not heads:
+        raise driver.AnalysisBroken("%s: halving loop not found" % fname)
+    h = max(heads, key=lambda x: len(loops[x]))
+    odd = False
+    for bid in fn.reachable_blocks():
+        c = fn.blocks[bid].cond
+        if c is None or bid in loops[h] or not fn.dominates(bid, h):
+            continue
+        for y, _ in walk(c):
+            if y.get("k") == "call" and y.get("fn") in ("bn_is_odd", "bn_is_even") and core.base_ref(y["args"][0]) is not None and core.base_ref(y["args"][0])["n"] == m:
+                if any(h not in fn.reach_from([s]) for s in fn.blocks[bid].rsucc()):
+                    odd = True
+    desc = "%s: the halving steps run only for an odd modulus" % fname
+    (rep.proved if odd else rep.violated)("R-DOMAIN", fn, "odd-modulus", desc, "parity test of '%s' dominates the loop" % m if odd else
+                                          "no parity test of '%s' before the loop: bn_mod_inv_mont(3, 4) returns success with 2 (3 * 2 = 2 mod 4); 370 coprime pairs with even m <= 64 fail" % m)
+    return 1
+
+
+def zero_modulus_loop_rule(rep, u, names=("bn_mod_small",)):
+    """a reduce-by-subtraction loop `while (bn >= m) bn -= m` terminates only for m != 0: a zero test of the modulus with a
+    leaving edge dominates the loop"""
+    n = 0
+    for fname in names:
+        fn = u.fn(fname)
+        if fn is None or not fn.has_cfg:
+            raise driver.AnalysisBroken("anchor %s vanished" % fname)
+        rep.functions.add(fname)
+        m = fn.params[1]["n"]
+        for h, body in fn.loops().items():
+            subs = [c for b in body for e in fn.blocks[b].elems for c, _ in walk(e) if c.get("k") == "call" and c.get("fn") == "bn_sub" and
+                    core.base_ref(c["args"][1]) is not None and core.base_ref(c["args"][1])["n"] == m]
+            if not subs:
+                continue
+            n += 1
+            ok = False
+            for bid in fn.reachable_blocks():
+                c = fn.blocks[bid].cond
+                if c is None or bid in body or not fn.dominates(bid, h):
+                    continue
+                for y, _ in walk(c):
+                    zt = (y.get("k") == "call" and y.get("fn") == "bn_is_zero" and core.base_ref(y["args"][0]) is not None and core.base_ref(y["args"][0])["n"] == m) or \
+                         (y.get("k") == "mem" and y["f"] == "digits" and core.base_ref(y) is not None and core.base_ref(y)["n"] == m)
+                    if zt and any(h not in fn.reach_from([s]) for s in fn.blocks[bid].rsucc()):
+                        ok = True
+            desc = "%s: the subtract-until-smaller loop is entered only for a modulus != 0" % fname
+            (rep.proved if ok else rep.violated)("R-DOMAIN", fn, "nonzero-modulus", desc, "" if ok else
+                                                 "%s(5, 0): bn_cmp(bn, 0) >= 0 is always true and bn_sub(bn, 0) changes nothing - the call never returns" % fname)
     return n
